@@ -705,7 +705,9 @@ class FTPFS(FS):
                     response = self.ftp.sendcmd(
                         str("MLST ") + _encode(_path, self.ftp.encoding)
                     )
-                lines = _decode(response, self.ftp.encoding).splitlines()[1:-1]
+                # (ftplib joins the lines of a reply with "\n"; str.splitlines() would also
+                # break at VT, FF, FS, GS, RS, NEL, LS and PS, which a name may contain)
+                lines = _decode(response, self.ftp.encoding).split("\n")[1:-1]
                 for raw_info in self._parse_mlsx(lines):
                     return Info(raw_info)
 
